@@ -42,6 +42,18 @@ CLAIMS = {
     "C12": dict(tech=TECH, ref="§5-C12",
                 text="Proof (conditional on the foreign aligner's contract, which is an explicit hypothesis and is monitored): the executable checker cigarValid decides the inductive definition of an end-to-end alignment (cigarValid_iff); a valid alignment consumes both strings exactly; the printed CIGAR parses back to the operations the tallies were taken from, match count and block length agree with it, 'M' is never emitted (tally_agrees, parse_render); all other columns and optional fields are unchanged (untouched); alignments of more than 60 000 read bases pass through unchanged (passthrough); realign_record assembles the full statement under AlignerContract. Correspondence/monitor: the REAL run_realign (real multiprocessing, WFA2) on generated reads; for every output record the Lean driver re-derives the path slice with its own graph model, runs the proved checker on the CIGAR the tool wrote, compares tallies, cost(out) <= cost(in) under the aligner's penalties, untouched columns/tags and the pass-through guard.",
                 note=BASE + "PARTIAL: WFA2-lib/pywfa is C code outside every theorem (AlignerContract assumed, monitored per case); pysam.FastaFile.fetch assumed to return the read slice; penalties 4/6/2 read from pywfa's defaults."),
+    "C01": dict(tech=TECH_A, ref="§5-C01",
+                text="Proof, both directions, for every valid rGFA and every walk / stable record, unbounded path length: unstable->stable (toStable_locus): the merge loop preserves the spelled sequence (induction on the walk, '<' merges extend to the left), the collapsed single-reference-interval case is the slice / reverse-complement-slice identity, path length = total interval length or the contig length, CIGAR reversed iff the strand flips; stable->unstable (toUnstable_bare, toUnstable_ivs): the bisection window contains every overlapping segment and the three cases select exactly the overlapping segments (selected_eq_overlaps), rank-0 sequences are tiled (ref_tiled), so the emitted node run spells the same bases with the same offsets arithmetic on both strands. merge_nodes is translated from the source on every run and proved equal to the model (Tie A). Correspondence: real view --format stable/unstable on generated graphs and records; the Lean driver spells the locus of input and output from the S lines and compares.",
+                note=BASE + "Translator (merge_nodes). The table-building glue of view.run and the path/number text layer (Model/View.lean, Model/ConvText.lean) are tied by correspondence only. Stable inputs: bare rank-0 contig (either strand) or '+' interval lists tiled by segments."),
+    "C03": dict(tech=TECH, ref="§5-C03",
+                text="Proof: for every graph with unique ids and sorted disjoint per-contig tables and every record list (unstable: nodes of the graph; stable: intervals/spans that overlap a node), indexing succeeds, every key is (id, SN, SO, SO+LN) of a node, keys are distinct, and ordinal i is in the entry of node n iff record i traverses n (index_exact via recNodes_iff: for stable records through the bisection-window and three-case lemmas). Correspondence: real index.run in the four configurations {stable, unstable} x {plain, BGZF with small blocks}; every stored offset is resolved by seeking the real file (GAF.read_line) and the entry sets compared; absence of false entries is part of the comparison.",
+                note=BASE + "Offsets enter only through their order and seek/readline (C17's interface): the model works on record ordinals. Pickle round-trip trusted. A revisited node lists the record twice (the property says 'contains')."),
+    "C04": dict(tech=TECH, ref="§5-C04",
+                text="Proof: view --node on the index returns exactly the ordinals of the records traversing at least one named node, each once, in file order, nodes without entry contribute nothing, and 'no alignments' exactly when that set is empty (selectNodes_exact). Correspondence: real view.run with node lists (repeats, unaligned nodes), with and without --format, plain/BGZF; content of the selected records checked against C16's expectation (no --format) and against convert-whole-file-then-select (--format); whole-file view reproduces the file.",
+                note=BASE + "Same interface assumptions as C03. Content of re-emitted records is C16; conversion is C01/C02."),
+    "C05": dict(tech=TECH, ref="§5-C05",
+                text="Proof: the repaired region search returns exactly the indexed nodes of the contig whose interval intersects the closed region (regionNodes_iff) and view --region equals view --node for the nodes under the regions, 'no alignments' when nothing matches (selectRegions_exact); termination is by construction (structural recursion over the node list). Correspondence: real view.run with 1-3 regions (inside one node, on boundaries, spanning nodes, over unaligned nodes, haplotype contigs); an internal error or a foreign line is a violation.",
+                note=BASE + "The property text leaves open whether position b of CONTIG:a-b belongs to the region: the executable spec accepts both readings for a node that only touches b; the model follows the code (closed)."),
 }
 
 IN_PROGRESS = "check under construction in this round; not claimed until its proofs and correspondence run green"
